@@ -16,6 +16,7 @@
 //   lattice_copy          Lattice copied, the original destroyed, chain built from the copy
 //   partial_ops <i>       FieldOperatorContainer::prepareAll({i}); operators of i used
 //   partial_ops_other <i> <j>   ... then getCreationOperator(j) for j not prepared (PENDING probe)
+//   ops_twice <i>         prepareAll({i}); objects referring to the operators of i constructed; prepareAll() and prepareAll({i}) again; the objects used
 //   labels                getBlockNumber / getInnerState / getEigenValue / getWeight at 0, 2^N-1, 2^N, 2^N+1, ULONG_MAX
 //   indexinfo             getInfo at every index, at IndexSize (throws), getIndex of unknown modes, checkIndex
 //   gfmany <i> <j> <nmax> G_ij at Matsubara numbers -nmax..nmax, at complex z, tau at 0, beta/2, beta (both ends)
@@ -160,6 +161,25 @@ static void run_seq(const std::vector<std::string>& t) {
             const CreationOperator& cx = ops.getCreationOperator(j);     // documented: "Makes on-demand computation"
             use(double(cx.getIndex()));
         }
+    } else if (c == "ops_twice") {
+        // objects that keep references to the container's operators, then a second prepareAll() that covers the same index again
+        pv::ED e; if (!e.build(sc, "dm")) throw std::runtime_error(e.error);
+        ParticleIndex i = L(t[2]);
+        FieldOperatorContainer ops(*e.Idx, *e.S, *e.H);
+        std::set<ParticleIndex> s; s.insert(i);
+        ops.prepareAll(s); ops.computeAll();
+        GreensFunction g(*e.S, *e.H, ops.getAnnihilationOperator(i), ops.getCreationOperator(i), *e.rho);
+        QuadraticOperator nq(*e.Idx, *e.S, *e.H, i, i); nq.prepare(); nq.compute();
+        TwoParticleGF chi(*e.S, *e.H, ops.getAnnihilationOperator(i), ops.getAnnihilationOperator(i), ops.getCreationOperator(i), ops.getCreationOperator(i), *e.rho);
+        ops.prepareAll(); ops.computeAll();          // every index, i among them
+        ops.prepareAll(s); ops.computeAll();         // and i alone once more
+        g.prepare(); g.compute();
+        use(g(long(0))); use(g.of_tau(0.0));
+        chi.prepare(); chi.compute();
+        use(chi(0, 0, 0));
+        GreensFunction g2(*e.S, *e.H, ops.getAnnihilationOperator(i), ops.getCreationOperator(i), *e.rho);
+        g2.prepare(); g2.compute();
+        use(g2(long(1)));
     } else if (c == "labels") {
         pv::ED e; if (!e.build(sc, "dm")) throw std::runtime_error(e.error);
         unsigned long ns = e.S->getNumberOfStates();
